@@ -89,6 +89,66 @@ theorem stale_or_nonmember_forgery_tolerated (vs : List Nat) (cur : Book) (data 
              · exact absurd hm h'
              · rw [hf] at h'; cases h'
 
+/-- **Stale / non-member entries are skipped *before* verification**: the signature of an entry that is not
+taken (non-member key, or not strictly newer than the stored entry) has no influence at all — swapping it for
+any other signature gives the same verdict and the same book. -/
+theorem stale_skipped_without_verify (vs : List Nat) (cur : Book) (pre post : List Ann) (d d' : Ann)
+    (hk : d'.key = d.key) (hm : d'.msg = d.msg) (hnt : d.key ∉ vs ∨ fresh cur d = false) :
+    isOk (update vs cur (pre ++ d' :: post)).res = isOk (update vs cur (pre ++ d :: post)).res ∧
+    ∀ k, lookup (update vs cur (pre ++ d' :: post)).book k = lookup (update vs cur (pre ++ d :: post)).book k := by
+  have hfr : fresh cur d' = fresh cur d := by simp [fresh, hk, hm]
+  have ht : taken vs cur d = false := by
+    cases h : taken vs cur d with
+    | false => rfl
+    | true =>
+      have := (taken_iff ..).mp h
+      rcases hnt with h' | h'
+      · exact absurd this.1 h'
+      · rw [this.2] at h'; cases h'
+  have ht' : taken vs cur d' = false := by simpa [taken, hk, hfr] using ht
+  have hacc : Accepts vs cur (pre ++ d' :: post) ↔ Accepts vs cur (pre ++ d :: post) := by
+    have hkeys : (pre ++ d' :: post).map (·.key) = (pre ++ d :: post).map (·.key) := by simp [hk]
+    unfold Accepts
+    rw [hkeys]
+    have hcond : ∀ x : Ann, taken vs cur x = false → (x.key ∈ vs → fresh cur x = true → x.verify = true) := by
+      intro x hx h1 h2; rw [(taken_iff ..).mpr ⟨h1, h2⟩] at hx; cases hx
+    constructor
+    · rintro ⟨hn, h⟩
+      refine ⟨hn, fun e he => ?_⟩
+      rcases List.mem_append.mp he with he | he
+      · exact h e (List.mem_append.mpr (Or.inl he))
+      · rcases List.mem_cons.mp he with rfl | he
+        · exact hcond _ ht
+        · exact h e (List.mem_append.mpr (Or.inr (List.mem_cons_of_mem _ he)))
+    · rintro ⟨hn, h⟩
+      refine ⟨hn, fun e he => ?_⟩
+      rcases List.mem_append.mp he with he | he
+      · exact h e (List.mem_append.mpr (Or.inl he))
+      · rcases List.mem_cons.mp he with rfl | he
+        · exact hcond _ ht'
+        · exact h e (List.mem_append.mpr (Or.inr (List.mem_cons_of_mem _ he)))
+  have hok : isOk (update vs cur (pre ++ d' :: post)).res = isOk (update vs cur (pre ++ d :: post)).res := by
+    cases h1 : isOk (update vs cur (pre ++ d :: post)).res with
+    | true => exact (update_ok_iff ..).mpr (hacc.mpr ((update_ok_iff ..).mp h1))
+    | false =>
+      cases h2 : isOk (update vs cur (pre ++ d' :: post)).res with
+      | false => rfl
+      | true => rw [(update_ok_iff ..).mpr (hacc.mp ((update_ok_iff ..).mp h2))] at h1; cases h1
+  refine ⟨hok, fun k => ?_⟩
+  cases h1 : isOk (update vs cur (pre ++ d :: post)).res with
+  | false => rw [update_err_book _ _ _ h1, update_err_book _ _ _ (hok.trans h1)]
+  | true =>
+    rw [update_ok_lookup _ _ _ h1, update_ok_lookup _ _ _ (hok.trans h1)]
+    unfold specLookup
+    rw [List.find?_append, List.find?_append, List.find?_cons, List.find?_cons, hk]
+    cases pre.find? (fun d => d.key == k) with
+    | some e => rfl
+    | none =>
+      simp only [Option.none_or]
+      cases d.key == k with
+      | false => rfl
+      | true => simp [ht, ht']
+
 /-- **Rejected batch ⇒ no change**, and nobody is notified. -/
 theorem rejected_batch_no_change (vs : List Nat) (cur : Book) (data : List Ann)
     (h : isOk (update vs cur data).res = false) :
@@ -396,7 +456,8 @@ example : isOk (update [0, 1] [a0] [b0, c0, c0]).res = false := by decide
 -- stale forged entry / forged non-member entry: tolerated (`stale_or_nonmember_forgery_tolerated`)
 example : isOk (update [0, 1] [a1] [{ f0 with msg := { f0.msg with version := 0 } }, b0]).res = true ∧
     isOk (update [0] [a1] [f1]).res = true := by decide
--- hypotheses of `run_never_decreases` / `stored_are_authentic` on a run with an own announcement
+-- hypotheses of `run_never_decreases` / `stored_are_authentic` on a run with an own announcement (version 1,
+-- timestamp 7s) that is then superseded by a received announcement of the same version with a later timestamp
 example : NoOverflow [] [Op.update [0, 1] [a0, b0], Op.announce 0 12 7 7, Op.update [0, 1] [a1]] ∧
     (lookup (run [] [Op.update [0, 1] [a0, b0], Op.announce 0 12 7 7, Op.update [0, 1] [a1]]) 0).map
       (fun a => (a.msg.version, a.msg.addr)) = some (1, 11) :=
